@@ -50,7 +50,7 @@ namespace Tins {
 namespace TCPIP {
 
 StreamIdentifier::StreamIdentifier() 
-: min_address_port(0), max_address_port(0) {
+: min_address_port(0), max_address_port(0), is_v6(false) {
     min_address.fill(0);
     max_address.fill(0);
 }
@@ -60,7 +60,21 @@ StreamIdentifier::StreamIdentifier(const address_type& client_addr,
                                    const address_type& server_addr,
                                    uint16_t server_port) 
 : min_address(client_addr), max_address(server_addr), min_address_port(client_port),
-  max_address_port(server_port) {
+  max_address_port(server_port), is_v6(false) {
+    sort_endpoints();
+}
+
+StreamIdentifier::StreamIdentifier(const address_type& client_addr,
+                                   uint16_t client_port,
+                                   const address_type& server_addr,
+                                   uint16_t server_port,
+                                   bool is_v6) 
+: min_address(client_addr), max_address(server_addr), min_address_port(client_port),
+  max_address_port(server_port), is_v6(is_v6) {
+    sort_endpoints();
+}
+
+void StreamIdentifier::sort_endpoints() {
     if (min_address > max_address) {
         swap(min_address, max_address);
         swap(min_address_port, max_address_port);
@@ -72,13 +86,13 @@ StreamIdentifier::StreamIdentifier(const address_type& client_addr,
 }
 
 bool StreamIdentifier::operator<(const StreamIdentifier& rhs) const {
-    return tie(min_address, max_address, min_address_port, max_address_port) <
-           tie(rhs.min_address, rhs.max_address, rhs.min_address_port, rhs.max_address_port);
+    return tie(is_v6, min_address, max_address, min_address_port, max_address_port) <
+           tie(rhs.is_v6, rhs.min_address, rhs.max_address, rhs.min_address_port, rhs.max_address_port);
 }
 
 bool StreamIdentifier::operator==(const StreamIdentifier& rhs) const {
-    return tie(min_address, min_address_port, max_address, max_address_port) ==
-           tie(rhs.min_address, rhs.min_address_port, rhs.max_address, rhs.max_address_port);
+    return tie(is_v6, min_address, min_address_port, max_address, max_address_port) ==
+           tie(rhs.is_v6, rhs.min_address, rhs.min_address_port, rhs.max_address, rhs.max_address_port);
 }
 
 StreamIdentifier StreamIdentifier::make_identifier(const PDU& packet) {
@@ -99,11 +113,11 @@ StreamIdentifier StreamIdentifier::make_identifier(const PDU& packet) {
     // Extract layer 3 and build the identifier
     if (const IP* ip = packet.find_pdu<IP>()) {
         return StreamIdentifier(serialize(ip->src_addr()), source_port,
-                                serialize(ip->dst_addr()), dest_port);
+                                serialize(ip->dst_addr()), dest_port, false);
     }
     else if (const IPv6* ip = packet.find_pdu<IPv6>()) {
         return StreamIdentifier(serialize(ip->src_addr()), source_port,
-                                serialize(ip->dst_addr()), dest_port);
+                                serialize(ip->dst_addr()), dest_port, true);
     }
     else {
         throw invalid_packet();
@@ -113,7 +127,7 @@ StreamIdentifier StreamIdentifier::make_identifier(const PDU& packet) {
 StreamIdentifier StreamIdentifier::make_identifier(const Stream& stream) {
     if (stream.is_v6()) {
         return StreamIdentifier(serialize(stream.client_addr_v6()), stream.client_port(),
-                                serialize(stream.server_addr_v6()), stream.server_port());
+                                serialize(stream.server_addr_v6()), stream.server_port(), true);
     } else {
         return StreamIdentifier(serialize(stream.client_addr_v4()), stream.client_port(),
                                 serialize(stream.server_addr_v4()), stream.server_port());
